@@ -355,6 +355,13 @@ fn shrink_violations(rep: &mut Report, surface: Surface, seed: u64, thorough: bo
 }
 
 pub fn run(p: &Params, rep: &mut Report) {
+    if p.shard == 7 {
+        // operand and class counts beyond 2^10 (and, for one term, beyond 2^16)
+        for n in if p.thorough { vec![1100u32, 2100, 4200] } else { vec![1100u32] } {
+            super::ladder::wide_union(rep, "C01", n, p.seed);
+        }
+        super::ladder::wide_tree(rep, "C01", 65_600, p.seed);
+    }
     if p.shard == 6 {
         super::scale::c01(rep, p.seed);
     }
